@@ -18,7 +18,7 @@ Definition mkVS (a : bool) (h : Z) : VStat := {| v_active := a; v_height := h |}
 Record Obs := mkObs {
   o_reqs : list (Z * Req); o_tracker : list Z; o_susp : list (Z * Lvh);
   o_vstat : list (Z * VStat); o_stake : list (Z * Z); o_bounty : Z }.
-Record Step := mkStep { s_op : Op; s_ok : bool; s_obs : Obs; s_verdicts : list (Z * Z) }.
+Record Step := mkStep { s_op : Op; s_ok : bool; s_obs : Obs; s_verdicts : list (Z * Z); s_elected : list Z }.
 Record Case := mkCase { c_cfg : Cfg; c_init : Obs; c_steps : list Step }.
 
 Fixpoint zlist_eqb (a b : list Z) : bool :=
@@ -127,15 +127,16 @@ Definition byz_frozen (o : Obs) (a : Z) : bool :=
   match o_lookup (o_susp o) a with Some l => lvh_frozen l && (l_status l =? BYZ) | None => false end.
 
 (* violation codes:
-   1 outsider (not an active validator) opened an allegation     2 vote by a non-active / frozen validator or second vote
+   1 an account not in the elected validator set opened an allegation     2 vote by a non-elected / frozen validator or second vote
    3 staking transaction accepted for a frozen validator          4 byzantine-fault record released before the release time
    5 verdict without the votes crossing the share (exact)         6 guilty without a frozen byzantine-fault record
    7 guilty validator's stake not reduced by exactly the penalty  8 bounty credited differs from / exceeds the penalties
    9 a frozen byzantine-fault record changed without a release    10 frozen validator still active after EndBlock
    11 a transaction that its handler's Validate must refuse (not signed by the named validator) was executed
+   13 the evidence status record of a staker differs from its election result (sent to Tendermint or not)
    12 a tracked request whose votes cross a share is still open after EndBlock (decision not taken once)
    known-finding trigger (second number): 2 guilty_without_validator_record *)
-Definition mon_step (c : Cfg) (h t : Z) (prev : Obs) (st : Step) : list (Z * Z) :=
+Definition mon_step (c : Cfg) (h t : Z) (el : list Z) (prev : Obs) (st : Step) : list (Z * Z) :=
   let next := s_obs st in
   let frozen_kept :=
     flat_map (fun kv =>
@@ -155,9 +156,9 @@ Definition mon_step (c : Cfg) (h t : Z) (prev : Obs) (st : Step) : list (Z * Z) 
       else []) (o_susp prev) in
   frozen_kept ++
   match s_op st with
-  | OAllege id rep mal bh => if s_ok st && negb (o_active prev rep) then [(1, 0)] else []
+  | OAllege id rep mal bh => if s_ok st && negb (inb rep el) then [(1, 0)] else []
   | OVote id a ch =>
-      if s_ok st && (negb (o_active prev a) || o_frozen prev a ||
+      if s_ok st && (negb (inb a el) || o_frozen prev a ||
                      match o_lookup (o_reqs prev) id with Some r => voted a (r_votes r) | None => true end)
       then [(2, 0)] else []
   | OStake k v _ _ => if s_ok st && o_frozen prev v then [(3, 0)] else []
@@ -171,7 +172,8 @@ Definition mon_step (c : Cfg) (h t : Z) (prev : Obs) (st : Step) : list (Z * Z) 
   | OBegin _ _ _ => []
   | OInvalid => if s_ok st then [(11, 0)] else []
   | OEnd queue _ =>
-      let active := o_nactive next in
+      (* the active count of the tally is the size of the elected set (what was sent to Tendermint) *)
+      let active := Z.of_nat (length (s_elected st)) in
       let req := required_x c active in
       let verdict_ok (v : Z * Z) :=
         existsb (fun kr =>
@@ -197,16 +199,25 @@ Definition mon_step (c : Cfg) (h t : Z) (prev : Obs) (st : Step) : list (Z * Z) 
               negb (verdict_x c (count_choice YES (r_votes kr.2)) (count_choice NO (r_votes kr.2)) req =? VOTING)
            then [(12, if guilty_without_record c queue req kr.2 then 2 else 0)] else []) (o_reqs next)
        else []) ++
+      (* the evidence status of every staker in the queue is its election result *)
+      (if 1 <? h then
+         flat_map (fun qa => match o_lookup (o_vstat next) qa.1 with
+                             | Some v => if Bool.eqb (v_active v) (inb qa.1 (s_elected st)) then [] else [(13, 0)]
+                             | None => [(13, 0)]
+                             end) queue
+       else []) ++
       flat_map (fun kv => if o_frozen prev kv.1 && o_active next kv.1
                           then [(10, 0)] else []) (o_susp prev)
   end.
 
-Fixpoint mon_case (c : Cfg) (i h t : Z) (prev : Obs) (steps : list Step) : list (Z * Z * Z) :=
+Fixpoint mon_case (c : Cfg) (i h t : Z) (el : list Z) (prev : Obs) (steps : list Step) : list (Z * Z * Z) :=
   match steps with
   | [] => []
   | st :: rest =>
       let '(h', t') := match s_op st with OBegin h1 t1 _ => (h1, t1) | _ => (h, t) end in
-      map (fun v => (i, v.1, v.2)) (mon_step c h' t' prev st) ++ mon_case c (i + 1) h' t' (s_obs st) rest
+      (* "active validator" = elected at the latest EndBlock (sent to Tendermint with positive power) *)
+      let el' := match s_op st with OEnd _ _ => s_elected st | _ => el end in
+      map (fun v => (i, v.1, v.2)) (mon_step c h' t' el prev st) ++ mon_case c (i + 1) h' t' el' (s_obs st) rest
   end.
 
 (* flat list: case, step, code, trigger *)
@@ -214,7 +225,7 @@ Fixpoint monitor_violations (i : Z) (cs : list Case) : list Z :=
   match cs with
   | [] => []
   | c :: rest =>
-      flat_map (fun v => [i; v.1.1; v.1.2; v.2]) (mon_case (c_cfg c) 0 0 0 (c_init c) (c_steps c))
+      flat_map (fun v => [i; v.1.1; v.1.2; v.2]) (mon_case (c_cfg c) 0 0 0 [] (c_init c) (c_steps c))
       ++ monitor_violations (i + 1) rest
   end.
 
